@@ -513,6 +513,9 @@ impl Catalog {
                         total_freed += freed;
                         Ok::<(), TupleError>(())
                     })??;
+                    // Let go of the leaf: the tree keeps every page it has touched latched (and
+                    // pinned in the cache) until told otherwise.
+                    crate::tree::accessor::Accessor::clear(tree.accessor_mut()?);
                 }
             }
         }
